@@ -21,7 +21,8 @@
        ([TCrashUpload]): the disk at the crash point (temp file partly written),
        then Lru.reopen. *)
 From Coq Require Import List NArith Bool.
-From Sccache Require Import Base.Sx Model.Lru.
+From Sccache Require Import Base.Sx.
+From Sccache Require Import Model.Lru.
 Import ListNotations.
 Local Open Scope N_scope.
 
@@ -206,6 +207,47 @@ Fixpoint ttrace (s : tst) (ops : list top) : list (tout * tst) :=
   match ops with
   | [] => []
   | o :: r => let '(s', x) := tstep s o in (x, s') :: ttrace s' r
+  end.
+
+(* ---------- the client side: ClientToolchains ---------- *)
+
+(* src/dist/cache.rs `ClientToolchains` without custom / disabled toolchains: a persistent map
+   weak key -> archive id (weak_map.json) in front of a TcCache that is filled by insert_file.
+   put_toolchain: a known weak key answers from the map without touching the cache (and
+   without running the packager); otherwise the packager writes the archive to a temp file
+   OUTSIDE the cache ([fail] = it gives up: nothing else happens), insert_file moves it in under
+   the digest of its content, and the pair is recorded.  get_toolchain = TcCache::get_file. *)
+Record cst := { tcs : tst; weak : list (bytes * id) }.
+
+Inductive cop :=
+| CPut (w : bytes) (b : bytes) (fail : bool)
+| CGet (i : id)
+| CReopen (c : N).
+
+Definition cstep (s : cst) (o : cop) : cst * tout :=
+  match o with
+  | CPut w b fail =>
+      match alookup w (weak s) with
+      | Some i => (s, TORes TOk None [i])
+      | None =>
+          if fail then (s, TORes TRejected None [])
+          else
+            let '(s', r, t, ret) := tc_insert_file (tcs s) b in
+            match r with
+            | TOk => ({| tcs := s'; weak := (w, digest b) :: weak s |}, TORes r t ret)
+            | _ => ({| tcs := s'; weak := weak s |}, TORes r t ret)
+            end
+      end
+  | CGet i => let '(s', r, t, ret) := tc_get (tcs s) i in ({| tcs := s'; weak := weak s |}, TORes r t ret)
+  | CReopen c => ({| tcs := tc_reopen (tcs s) c; weak := weak s |}, TORes TOk None [])
+  end.
+
+Definition crun (s : cst) (ops : list cop) : cst := fold_left (fun s o => fst (cstep s o)) ops s.
+
+Fixpoint ctrace (s : cst) (ops : list cop) : list (tout * cst) :=
+  match ops with
+  | [] => []
+  | o :: r => let '(s', x) := cstep s o in (x, s') :: ctrace s' r
   end.
 
 End WithDigest.
